@@ -173,6 +173,41 @@ func generate(cfg *hx.Config) []hx.Case {
 	add(mk("f-grpc-c-bad", []string{"GRPC", "hs:65535:65535", "chg:1", "cdok:1", "cdbad:1"}), "grpc", "cdbad")
 	add(mk("f-grpc-s-bad", []string{"GRPC", "hs:65535:65535", "chg:1", "cdok:1", "shg:1", "sdok:1", "sdbad:1"}), "grpc", "sdbad")
 	add(mk("f-grpc-ok-SC", []string{"GRPC", "hs:65535:65535", "chg:1", "cdok:1", "shg:1", "sdok:1", "SC"}), "grpc", "SC")
+	// 4e. protocol errors x the carrier / position of the offending bytes, from each side, endpoints idle afterwards
+	for _, sd := range []string{"c", "s"} {
+		pre := []string{"hs:65535:65535"}
+		if sd == "s" {
+			pre = append(pre, "ch:1")
+		}
+		for mode := 1; mode <= 5; mode++ {
+			add(mk(fmt.Sprintf("h-%shb-m%d", sd, mode), pre, []string{fmt.Sprintf("%shb:1:%d", sd, mode)}), "idle", "bad-hpack-headers")
+			// as trailers, mid-stream
+			add(mk(fmt.Sprintf("h-%shb-trailers-m%d", sd, mode), stateScript("mid", 0), []string{fmt.Sprintf("%shb:1:%d:t", sd, mode)}), "mid", "bad-hpack-trailers")
+		}
+		for mode := 1; mode <= 3; mode++ {
+			add(mk(fmt.Sprintf("h-%spb-m%d", sd, mode), stateScript("mid", 0), []string{fmt.Sprintf("%spb:1:2:%d", sd, mode)}), "mid", "bad-hpack-push-promise")
+		}
+		// a continued block with DATA queued behind a zero window in the same direction
+		st := map[string]string{"c": "blkC", "s": "blkS"}[sd]
+		add(mk(fmt.Sprintf("h-%shb-m3-%s", sd, st), stateScript(st, 5), []string{fmt.Sprintf("%shb:1:3:t", sd)}), st, "bad-hpack-trailers")
+		up := strings.ToUpper(sd)
+		for i := 1; i <= 3; i++ {
+			add(mk(fmt.Sprintf("h-%sQ%d", up, i), stateScript("mid", 0), []string{fmt.Sprintf("%sQ%d", up, i)}), "mid", "bad-frame-sequence")
+		}
+		for i := 1; i <= 5; i++ {
+			add(mk(fmt.Sprintf("h-%sW%d", up, i), stateScript("mid", 0), []string{fmt.Sprintf("%sW%d", up, i)}), "mid", "wrong-stream-or-size")
+		}
+	}
+	// 4f. a write toward the client fails while ONE processFrame call of the server->client reader is emitting more
+	//     frames than its output channel holds (a DATA frame larger than 16 x 16384 is split by relay.data): the
+	//     writer must keep draining or the reader stays in emitEligibleFrames with nobody to release it
+	wide := []string{"hs:2147483647:65535", "cw:0:2147418112", "ch:1", "sh:1"}
+	for _, sz := range []int{262144, 278529, 300000, 1000000} { // 16 frames (fits), 18, 19, 62
+		add(mk(fmt.Sprintf("g-burst%d-WFC", sz), wide, []string{"WFC", fmt.Sprintf("sd:1:1:%d", sz)}), "burst", "WFC,big-sd")
+		add(mk(fmt.Sprintf("g-burst%d-STC-WFC", sz), wide, []string{"STC", fmt.Sprintf("sd:1:1:%d", sz), "WFC"}), "burst", "STC,big-sd,WFC")
+	}
+	add(mk("g-burst-ok-SC", wide, []string{"sd:1:1:300000", "SC"}), "burst", "big-sd,SC")
+	add(mk("g-burstC-SR", []string{"hs:65535:2147483647", "sw:0:2147418112", "ch:1"}, []string{"cd:1:1:300000+SR"}), "burst", "big-cd+SR")
 	// 5. controls: nothing that ends the session has happened, the relay must stay up
 	add(mk("c-idle", stateScript("idle", 0), []string{"cp", "sp"}), "idle", "none")
 	add(mk("c-mid-armed", stateScript("mid", 0), []string{"WFC", "cp"}), "mid", "none(WFC armed, no write toward the client)")
